@@ -144,7 +144,7 @@ pub trait Property: Sync + Send + 'static {
         Ok(())
     }
     /// extra coverage keys computed from the merged class histogram
-    fn extra_coverage(&self, _classes: &BTreeMap<String, u64>, _cov: &mut Map<String, Value>) {}
+    fn extra_coverage(&self, _classes: &mut BTreeMap<String, u64>, _cov: &mut Map<String, Value>) {}
 }
 
 // ---------------------------------------------------------------------------------------
@@ -627,7 +627,6 @@ pub fn run_property<P: Property>(prop: &P, tier: Tier, env: &Env) -> i32 {
     cov.insert("oracle_sub_evaluations".into(), json!(tally.sub_evaluations));
     cov.insert("excluded_by_domain".into(), json!(tally.excluded));
     cov.insert("excluded_known".into(), json!(tally.known_hits.values().sum::<u64>()));
-    cov.insert("classes".into(), json!(tally.classes));
     cov.insert("exhaustive".into(), json!(prop.exhaustive()));
     cov.insert("workers".into(), json!(env.jobs));
     if !missing.is_empty() {
@@ -636,7 +635,9 @@ pub fn run_property<P: Property>(prop: &P, tier: Tier, env: &Env) -> i32 {
     if let Some(p) = &replay_path {
         cov.insert("replay".into(), json!(p.display().to_string()));
     }
-    prop.extra_coverage(&tally.classes, &mut cov);
+    let mut classes = tally.classes.clone();
+    prop.extra_coverage(&mut classes, &mut cov);
+    cov.insert("classes".into(), json!(classes));
     let ev = json!({
         "property_id": P::ID,
         "tier": tier.name(),
